@@ -140,8 +140,8 @@ class C18(Prop):
         "FairPacketSwitch egress ports) with per-class sinks, several flows per class. non-trivial = at least one packet / one flow / "
         "k >= 4; distinct by hash of the case")
     trusted_base = [
-        "recorders stand in for outputs, end devices, hub endpoints and hub port devices; schedulers inside FairPacketSwitch are bypassed "
-        "by taps (their behaviour belongs to C12-C15)",
+        "recorders stand in for outputs, end devices, hub endpoints and hub port devices; in the 'switch' kind and the e2e variant 'fair' the "
+        "schedulers inside FairPacketSwitch are replaced by taps (their behaviour belongs to C12-C15); the e2e variant 'fair-real' runs them",
         "object identity is observed with `is` and replaced by creation indices",
         "networkx (Graph adjacency order, all_shortest_paths) and random.sample are run, not modelled: every generated path is validated "
         "in Coq against the model of the fat tree (walk, simple, length = hostdist)",
@@ -313,9 +313,14 @@ class C18(Prop):
 
     def gen_e2e(self, rng, tier):
         k = rng.choice([2, 4, 4, 6] if tier == "quick" else [2, 4, 4, 6, 8])
-        return {"kind": "e2e", "k": k, "seed": rng.randrange(10 ** 6), "nflows": rng.randint(1, 8), "tcp": rng.random() < 0.5,
-                "npk": rng.randint(1, 3), "variant": rng.choice(["portwire", "fair"]), "server": rng.choice(SERVERS),
+        case = {"kind": "e2e", "k": k, "seed": rng.randrange(10 ** 6), "nflows": rng.randint(1, 8), "tcp": rng.random() < 0.5,
+                "npk": rng.randint(1, 3), "variant": rng.choice(["portwire", "fair", "fair-real"]), "server": rng.choice(SERVERS),
                 "ncls": rng.randint(1, 3)}
+        if case["variant"] == "fair-real" and case["server"] == "SP":
+            # the real SP scheduler busy-loops (no yield) as soon as a flow id differs from its class id
+            # (observed 2026-09-28; it is C13's element): the real-scheduler variant runs WFQ / DRR / VirtualClock only
+            case["server"] = rng.choice(SERVERS[1:])
+        return case
 
     # ============================================================================================
     # implementation
@@ -449,6 +454,8 @@ class C18(Prop):
         except Exception as e:
             return {"construct_raised": _exc(e)}
         base = len(eps)
+        if not case["ports_arg"] or not ports:
+            ports = [None] * len(eps)                 # no ports list: every endpoint attached directly
         for j, (eid, hp) in enumerate(case["added"]):
             ep = EP(base + j, eid)
             pt = PortFwd(["port", base + j], log) if hp else None
@@ -591,24 +598,29 @@ class C18(Prop):
         from onl.packet import Packet
         k = case["k"]
         env = Environment()
-        ft = FatTree(k)
-        random.seed(case["seed"])
-        flows = ft.generate_flows(case["nflows"])
         tcp = case["tcp"]
-        ft.generate_fib(flows, tcp=tcp)
+        try:
+            ft = FatTree(k)
+            random.seed(case["seed"])
+            flows = ft.generate_flows(case["nflows"])
+            ft.generate_fib(flows, tcp=tcp)
+        except Exception as e:
+            return {"setup_raised": _exc(e)}
         topo = ft.topo
         fl = [[flows[key].fid, flows[key].src, flows[key].dst, list(flows[key].path)] for key in flows]
         hops, sinks = [], []          # (node, class, pid) in global order ; (sink class, node, class, pid)
+        nhops, loops = {}, []
         ncls = case["ncls"]
         dev = {}
         for v in topo.nodes():
             node = topo.nodes[v]
-            if case["variant"] == "fair":
+            if case["variant"] in ("fair", "fair-real"):
                 sw = FairPacketSwitch(env, k, 1.0e6, 1000, {c: 1 for c in range(ncls)}, case["server"], element_id=str(v),
                                       flow2class=lambda fid: fid % ncls)
                 sw.demux.fib = node["flow_to_port"]
-                for sch in sw.ports:                  # bypass the scheduler: its put hands the packet straight to its out
-                    sch.put = (lambda p, sch=sch: sch.out.put(p) if sch.out else None)
+                if case["variant"] == "fair":
+                    for sch in sw.ports:              # bypass the scheduler: its put hands the packet straight to its out
+                        sch.put = (lambda p, sch=sch: sch.out.put(p) if sch.out else None)
                 dev[v] = sw
                 demux = sw.demux
             else:
@@ -621,12 +633,22 @@ class C18(Prop):
                 demux = FIBDemux(outs=ports, fib=node["flow_to_port"], ends=None, default_out=None)
                 dev[v] = demux
             orig = demux.put
-            demux.put = (lambda p, v=v, orig=orig: (hops.append([v, p.flow_id, p.packet_id]), orig(p))[1])
+
+            def tap(p, v=v, orig=orig):
+                key = (p.flow_id, p.packet_id)
+                nhops[key] = nhops.get(key, 0) + 1
+                if nhops[key] > 24:                   # a forwarding loop: stop the packet, report it
+                    if key not in loops:
+                        loops.append(key)
+                    return None
+                hops.append([v, p.flow_id, p.packet_id])
+                return orig(p)
+            demux.put = tap
             node["c18_demux"] = demux
         for v in topo.nodes():
             node = topo.nodes[v]
             for port_number, nh in node["port_to_nexthop"].items():
-                if case["variant"] == "fair":
+                if case["variant"] in ("fair", "fair-real"):
                     dev[v].ports[port_number].out = dev[nh]
                 else:
                     dev[v].outs[port_number].out.out = topo.nodes[nh]["c18_demux"]
@@ -668,7 +690,8 @@ class C18(Prop):
                 pk.append({"node": node, "cls": cls, "pid": j,
                            "trace": [h[0] for h in hops if h[1] == cls and h[2] == j],
                            "sinks": [[s[0], s[1]] for s in sinks if s[2] == cls and s[3] == j]})
-        return {"flows": fl, "packets": pk, "raised": raised, "sim_raised": sim_raised, "nsink": len(sinks)}
+        return {"flows": fl, "packets": pk, "raised": raised, "sim_raised": sim_raised, "nsink": len(sinks),
+                "loops": [list(x) for x in loops]}
 
     # ============================================================================================
     # model
@@ -824,7 +847,9 @@ class C18(Prop):
         return f"{pre} && match {gen} with Some t => tables_agree t {entries_term(obs['entries'])} | None => false end"
 
     def agree_e2e(self, case, obs):
-        if obs["raised"] or obs["sim_raised"]:
+        if "setup_raised" in obs:
+            return "false"
+        if obs["raised"] or obs["sim_raised"] or obs["loops"]:
             return "false"
         k = cf.nat(case["k"])
         flows = flows_term([[f, p] for f, _, _, p in obs["flows"]])
@@ -841,7 +866,7 @@ class C18(Prop):
                 res = f"(Lost {nlist(p['trace'])})"
             pk.append(cf.pair(cf.nat(p["node"]), cf.z(p["cls"]), res))
         return (f"forallb (fun x => path_ok {k} (fst (fst x)) (snd (fst x)) (snd x)) {paths} && "
-                f"e2e_agree {k} {cf.b(case['variant'] == 'fair')} {cf.b(case['tcp'])} {flows} {cf.lst(pk)}")
+                f"e2e_agree {k} {cf.b(case['variant'] != 'portwire')} {cf.b(case['tcp'])} {flows} {cf.lst(pk)}")
 
     def model_term(self, case):
         kd = case["kind"]
@@ -985,6 +1010,8 @@ class C18(Prop):
             msgs.append("hub-accepts-mismatch: ports list of another length than endpoints accepted")
         if not obs["wiring"]:
             msgs.append("hub-wiring: endpoint.out is not the hub or port.out is not its endpoint")
+        if not ports:
+            eps = [[e[0], False] for e in eps]        # an empty ports list means: no port devices
         alleps = eps + [list(e) for e in case["added"]]
         for s, r in zip(case["srcs"], obs["res"]):
             if r["raised"]:
@@ -1161,10 +1188,16 @@ class C18(Prop):
 
     def mon_e2e(self, case, obs):
         msgs = []
+        if "setup_raised" in obs:
+            return [f"e2e-setup-raises: FatTree({case['k']}) / generate_flows / generate_fib raised {obs['setup_raised']}"]
         if obs["raised"]:
             return [f"e2e-put-raises: injecting at node {obs['raised'][0][0]} class {obs['raised'][0][1]}: {obs['raised'][0][3:]} (variant {case['variant']})"]
         if obs["sim_raised"]:
             return [f"e2e-sim-raises: {obs['sim_raised']}"]
+        if obs["loops"]:
+            c, j = obs["loops"][0]
+            tr = [p["trace"] for p in obs["packets"] if p["cls"] == c and p["pid"] == j]
+            return [f"e2e-forwarding-loop: packet {j} of class {c} was still being forwarded after 24 hops: {tr[0][:10] if tr else ''}... (variant {case['variant']})"]
         paths = {}
         for f, s, d, p in obs["flows"]:
             paths[f] = p
@@ -1306,7 +1339,7 @@ class C18(Prop):
         elif kd == "e2e":
             keys.append("e2e:" + case["variant"] + (":tcp" if case["tcp"] else ""))
             fl = obs.get("flows", [])
-            if case["variant"] == "fair" and len(set(f % case["ncls"] for f, _, _, _ in fl)) < len(fl):
+            if case["variant"] != "portwire" and len(set(f % case["ncls"] for f, _, _, _ in fl)) < len(fl):
                 keys.append("e2e:flows-share-class")
         return keys
 
